@@ -452,7 +452,13 @@ def gen_events(rng, maxlen: int, crossing: bool) -> list[str]:
             elif r < 0.46:
                 ev.append(rng.choice(["rollback", "rollback", "commitnow"]))
             else:
-                ev.append(gen_command(rng, ttls))
+                c = gen_command(rng, ttls)
+                ev.append(c)
+                w = c.split()
+                if w[0] in ("set", "incr", "delete", "expire") and rng.random() < 0.3:
+                    # look at the key just written, from inside the transaction
+                    ev.append(rng.choice([f"get {w[1]}", f"get {w[1]}", f"exists {w[1]}", f"getexpire {w[1]}",
+                                          f"getmany {w[1]} {rng.choice(USER_KEYS)}"]))
         end = rng.choice(["ok", "ok", "ok", "exc"])
         while opened > 1:
             ev.append(f"exit {end if end == 'exc' else rng.choice(['ok', 'exc'])}")
